@@ -220,6 +220,15 @@ def run(chk: Check):
                 fresh = float(mk(coordinate_weights=weights).compute_loss(sim, real))
                 if f2h(fresh) != f2h(v1) and not (fresh != fresh and v1 != v1):
                     chk.fail(f"{name}: a used object gives {v1!r}, a fresh one {fresh!r}", case)
+                # the caller refills ONE real-data buffer in place between two evaluations by the same object: the second value is the one of the data now there
+                buf = np.array(real2 * 0.5 - 1.0, copy=True)      # data the object has not seen either
+                loss.compute_loss(sim, buf)
+                buf[...] = real * 1.5 + 0.25            # data the object has never seen
+                vb = float(loss.compute_loss(sim, buf))
+                vf = float(mk(coordinate_weights=weights).compute_loss(sim, np.array(buf, copy=True)))
+                if f2h(vb) != f2h(vf) and not (vb != vb and vf != vf):
+                    chk.fail(f"{name}: the value depends on earlier evaluations on the same object: on a real-data buffer refilled in place (real*1.5+0.25) since the previous evaluation "
+                             f"it gives {vb!r}, a fresh object on the same data gives {vf!r}", case)
                 # weight linearity on the real classes: the multi-coordinate value is the weighted sum of the values fresh objects give
                 # on each coordinate alone; a zero weight removes the coordinate; permuting coordinates with weights changes nothing
                 if name != "likelihood" and v1 == v1 and abs(v1) != float("inf"):
